@@ -3,16 +3,19 @@
 // around the arena), mju_error intercepted, and mj_arenaAllocByte wrapped at link time
 // (-Wl,--wrap=mj_arenaAllocByte) to record failed allocations.
 //
-// argv: nbody nlink cone islands cluster nsteps
+// argv: nbody nlink cone islands cluster nsteps [post]   (post = 1: the model is compiled with the default memory and
+//       m->narena is set to the swept size afterwards, as for a model loaded from a binary file)
 // stdin: memory sizes (bytes; -1 = compiler default)
 // stdout per size, one line:
 //   M <memory> C                      model does not compile with this memory (message on the next line)
 //   M <memory> D                      mj_makeData raised mju_error
 //   M <memory> R <steps done> <err 0|1> <ncon> <nefc> <nisland> <parena> <pstack> <pbase> <wcon> <wcnstr>
 //        <bad mask> <guard damage> <arena allocs> <failed allocs> <last failed bytes> <last failed align> <narena>
+//        <allocations violating the per-allocation oracle of c20_wrap.h> <first: kind bytes align offset parena pstack>
 //   M <memory> X <signal> <fault address> <failed allocs> <last failed bytes> <last failed align>
 // bad mask bits: 1 stack not restored, 2 parena out of range, 4 contact != arena, 8 efc pointer
-// NULL/non-NULL mix or outside the arena, 16 efc_address out of range, 32 nefc > 0 with NULL arrays
+// NULL/non-NULL mix or outside the arena, 16 efc_address out of range, 32 nefc > 0 with NULL arrays,
+// 64 maxuse_arena > narena
 #include <inttypes.h>
 #include <setjmp.h>
 #include <signal.h>
@@ -20,6 +23,7 @@
 #include <stdio.h>
 #include <stdlib.h>
 #include <string.h>
+#include <sys/mman.h>
 #include <sys/types.h>
 #include <sys/wait.h>
 #include <unistd.h>
@@ -62,23 +66,21 @@ static long guard_damage(void) {
   return bad;
 }
 
-// ---- wrapped mj_arenaAllocByte
-void* __real_mj_arenaAllocByte(mjData* d, size_t bytes, size_t alignment);
-static volatile long n_alloc, n_failed; static volatile size_t last_bytes, last_align;
-void* __wrap_mj_arenaAllocByte(mjData* d, size_t bytes, size_t alignment) {
-  void* p = __real_mj_arenaAllocByte(d, bytes, alignment);
-  n_alloc++;
-  if (!p) { n_failed++; last_bytes = bytes; last_align = alignment; }
-  return p;
-}
+#include "c20_wrap.h"
+#define n_alloc w_nalloc
+#define n_failed w_nfailed
+#define last_bytes w_lastb
+#define last_align w_lasta
 
 static long long cur_memory;
+static volatile long* shared_done;   // number of memory sizes finished (shared with the parent)
 static void on_segv(int sig, siginfo_t* si, void* u) {
   (void)u;
   char buf[200];
-  int n = snprintf(buf, sizeof(buf), "M %lld X %d %" PRIuPTR " %ld %zu %zu\n", cur_memory, sig, (uintptr_t)si->si_addr,
-                   (long)n_failed, (size_t)last_bytes, (size_t)last_align);
+  int n = snprintf(buf, sizeof(buf), "M %lld X %d %" PRIuPTR " %ld %zu %zu %ld %lld %lld %lld %lld %lld %lld\n", cur_memory, sig, (uintptr_t)si->si_addr,
+                   (long)n_failed, (size_t)last_bytes, (size_t)last_align, (long)w_nviol, w_first[0], w_first[1], w_first[2], w_first[3], w_first[4], w_first[5]);
   if (write(1, buf, n) < 0) _exit(5);
+  (*shared_done)++;
   _exit(0);
 }
 
@@ -89,6 +91,7 @@ static int check(const mjModel* m, const mjData* d) {
   if (d->pstack != 0 || d->pbase != 0) bad |= 1;
   if (d->parena < (size_t)d->ncon * csz || d->parena + d->pstack > (size_t)d->narena) bad |= 2;
   if ((void*)d->contact != d->arena) bad |= 4;
+  if ((long long)d->maxuse_arena > (long long)d->narena) bad |= 64;
   int nnull = 0, nset = 0;
 #undef MJ_M
 #define MJ_M(n) m->n
@@ -113,13 +116,19 @@ static int check(const mjModel* m, const mjData* d) {
   return bad;
 }
 
+static mjModel* gmodel;
 static int one(int argc, char** argv, long long memory) {
   cur_memory = memory;
+  w_nalloc = w_nfailed = w_nstack = w_nviol = 0; w_lastb = w_lasta = 0;
+  lasterr[0] = 0;
   char err[400] = "";
   struct sigaction sa; memset(&sa, 0, sizeof(sa));
   sa.sa_sigaction = on_segv; sa.sa_flags = SA_SIGINFO;
   sigaction(SIGSEGV, &sa, NULL); sigaction(SIGBUS, &sa, NULL);
-  mjModel* m = verif_scene(atoi(argv[1]), atoi(argv[2]), memory, atoi(argv[3]), atoi(argv[4]), atoi(argv[5]), err, sizeof(err));
+  int post = argc > 7 ? atoi(argv[7]) : 0;   // 1: compile with the default memory, then m->narena = memory
+  // in post mode the model was compiled once by the parent (gmodel); the child owns a copy-on-write copy
+  mjModel* m = post ? gmodel : verif_scene(atoi(argv[1]), atoi(argv[2]), memory, atoi(argv[3]), atoi(argv[4]), atoi(argv[5]), err, sizeof(err));
+  if (m && post && memory >= 0) m->narena = (mjtSize)memory;
   if (!m) { for (char* q = err; *q; q++) if (*q == 10) *q = 32; printf("M %lld C %.200s\n", memory, err); return 0; }
   mjData* volatile d = NULL;
   if (setjmp(jb) == 0) d = mj_makeData(m); else { for (char* q = lasterr; *q; q++) if (*q == 10) *q = 32; printf("M %lld D %.200s\n", memory, lasterr); return 0; }
@@ -131,9 +140,12 @@ static int one(int argc, char** argv, long long memory) {
     if (setjmp(jb) == 0) { mj_step(m, d); done++; bad |= check(m, d); }
     else { errd = 1; break; }
   }
-  printf("M %lld R %d %d %d %d %d %zu %zu %zu %d %d %d %ld %ld %ld %zu %zu %lld\n", memory, done, errd, d->ncon, d->nefc, d->nisland,
+  printf("M %lld R %d %d %d %d %d %zu %zu %zu %d %d %d %ld %ld %ld %zu %zu %lld %ld %lld %lld %lld %lld %lld %lld\n", memory, done, errd, d->ncon, d->nefc, d->nisland,
          d->parena, d->pstack, d->pbase, d->warning[mjWARN_CONTACTFULL].number, d->warning[mjWARN_CNSTRFULL].number,
-         bad, guard_damage(), (long)n_alloc, (long)n_failed, (size_t)last_bytes, (size_t)last_align, (long long)d->narena);
+         bad, guard_damage(), (long)n_alloc, (long)n_failed, (size_t)last_bytes, (size_t)last_align, (long long)d->narena,
+         (long)w_nviol, w_first[0], w_first[1], w_first[2], w_first[3], w_first[4], w_first[5]);
+  mj_deleteData(d);
+  if (!post) mj_deleteModel(m);
   return 0;
 }
 
@@ -143,15 +155,35 @@ int main(int argc, char** argv) {
   mju_user_warning = on_warning;
   mju_user_malloc = g_malloc;
   mju_user_free = g_free;
-  long long memory;
-  while (scanf("%lld", &memory) == 1) {
+  if (argc > 7 && atoi(argv[7])) {
+    char err[400] = "";
+    gmodel = verif_scene(atoi(argv[1]), atoi(argv[2]), -1, atoi(argv[3]), atoi(argv[4]), atoi(argv[5]), err, sizeof(err));
+    if (!gmodel) { fprintf(stderr, "compile: %s\n", err); return 2; }
+  }
+  // memory sizes are processed in batches of up to BATCH per child process (forking is slow on a loaded machine);
+  // the child counts finished sizes in shared memory, so that after a crash the parent resumes behind the crashed size
+  shared_done = mmap(NULL, sizeof(long), PROT_READ | PROT_WRITE, MAP_SHARED | MAP_ANONYMOUS, -1, 0);
+  if (shared_done == MAP_FAILED) return 2;
+  static long long sizes[1 << 20]; long n = 0;
+  while (n < (1 << 20) && scanf("%lld", &sizes[n]) == 1) n++;
+  *shared_done = 0;
+  while (*shared_done < n) {
+    long first = *shared_done;
     fflush(stdout);
     pid_t pid = fork();
     if (pid < 0) return 2;
-    if (pid == 0) { int rc = one(argc, argv, memory); fflush(stdout); _exit(rc); }
+    if (pid == 0) {
+      for (long i = first; i < n && i < first + 64; i++) {
+        int rc = one(argc, argv, sizes[i]);
+        fflush(stdout);
+        if (rc) _exit(rc);
+        (*shared_done)++;
+      }
+      _exit(0);
+    }
     int status = 0;
     waitpid(pid, &status, 0);
-    if (WIFSIGNALED(status)) printf("M %lld X %d 0 -1 0 0\n", memory, WTERMSIG(status));
+    if (WIFSIGNALED(status)) { printf("M %lld X %d 0 -1 0 0 0 0 0 0 0 0 0\n", sizes[*shared_done], WTERMSIG(status)); (*shared_done)++; }
     else if (WEXITSTATUS(status)) return WEXITSTATUS(status);
   }
   return 0;
